@@ -31,11 +31,14 @@ inductive Chk
   | leToMaxAsFrom   -- from <= static_cast<T_From>(numeric_limits<T_To>::max())
 deriving DecidableEq, Repr
 
-inductive Body
-  | checks (cs : List Chk)
-  | sub (bs : List (List Atom × List Chk))    -- a nested chain; an empty condition list is the final `else`
+/-- what a branch body consists of: dynamic checks and (one level of) nested chains whose bodies are
+plain checks; an empty condition list is a final `else`, an `if` without `else` is a one-branch chain -/
+inductive Item
+  | chk (c : Chk)
+  | ifs (bs : List (List Atom × List Chk))
 deriving DecidableEq, Repr
 
+abbrev Body := List Item
 abbrev Chain := List (List Atom × Body)
 
 def Atom.holds (to fr : IntTy) : Atom → Bool
@@ -61,15 +64,17 @@ def subChecks (to fr : IntTy) : List (List Atom × List Chk) → List Chk
   | [] => []
   | (as, cs) :: rest => if as.all (Atom.holds to fr) then cs else subChecks to fr rest
 
+/-- the checks a body performs for this pair of types, in order -/
+def bodyChecks (to fr : IntTy) : Body → List Chk
+  | [] => []
+  | .chk c :: rest => c :: bodyChecks to fr rest
+  | .ifs bs :: rest => subChecks to fr bs ++ bodyChecks to fr rest
+
 /-- the checks that guard the final `to = static_cast<T_To>(from)` for this pair of types -/
 def chainChecks (to fr : IntTy) : Chain → List Chk
   | [] => []
   | (as, body) :: rest =>
-      if as.all (Atom.holds to fr) then
-        match body with
-        | .checks cs => cs
-        | .sub bs => subChecks to fr bs
-      else chainChecks to fr rest
+      if as.all (Atom.holds to fr) then bodyChecks to fr body else chainChecks to fr rest
 
 /-- meaning of the chain: every selected check passes, then the cast; otherwise abort -/
 def evalChain (c : Chain) (to fr : IntTy) (v : Int) : Option Int :=
